@@ -15,7 +15,7 @@ meta = {
     "property": pid,
     "origin": "independent sub-agent given only the property text and a scratch worktree" if "agent" in sid else "written by hand",
     "summary": agent.get("summary", ""),
-    "needs_to_manifest": agent.get("needs", ""),
+    "needs_to_manifest": agent.get("needs_to_manifest", agent.get("needs", "")),
     "confirmed": "tools/confirm_seeded.sh: demo.py exits 0 on the unpatched scratch worktree and non-zero with patch.diff applied "
                  "(rebuilt when .pyx/.pxd changed); " + ran,
     "agent_tests_run": agent.get("tests_run", ""),
